@@ -79,6 +79,20 @@ def replay_one(prop, cex_path):
     mod = importlib.import_module('harness.' + prop)
     cex = json.load(open(cex_path))
     rp = cex['replay']
+    if rp['kind'] == '__history__':
+        # a sequence of calls in ONE native process (hidden state between calls): each is judged by its own replay function
+        ok, detail = False, {'calls': len(rp['sequence'])}
+        # (three rounds: state keyed on object identity needs an address to be reused, which depends on the allocator)
+        for i, step in enumerate(list(rp['sequence']) * 3):
+            try:
+                bad, det = mod.REPLAY[step['kind']](step)
+            except Exception as e:      # the judge itself raised: treat as not reproduced for this step
+                bad, det = False, {'judge raised': repr(e)}
+            if bad:
+                ok, detail = True, {'violated at call': i + 1, 'of': 3 * len(rp['sequence']), 'input': {k: v for k, v in step.items() if k != 'kind'}, 'detail': det}
+                break
+        print('REPLAY %s %s' % ('reproduced' if ok else 'not-reproduced', json.dumps(detail, default=str)[:1500]))
+        return 0
     fn = mod.REPLAY[rp['kind']]
     ok, detail = fn(rp)
     print('REPLAY %s %s' % ('reproduced' if ok else 'not-reproduced', json.dumps(detail, default=str)[:1500]))
@@ -299,6 +313,21 @@ def main(argv=None):
 
     for r in final:
         if r['status'] == 'done' and r.get('differential_mismatch') and not any(v['job'] == r['job'] for v in violations):
+            hist = r.get('differential_history')
+            if hist:
+                # lifted (history-free) and native (one process, many calls) results differ: re-run the same sequence of native
+                # calls in a fresh interpreter under the property's native judge; a violation there is a history-dependent
+                # violation of the real library (hidden state between calls), anything else stays a harness error
+                cex = {'obligation': 'the result does not depend on earlier calls in the same process (sequence of %d calls; found as a '
+                                     'lifted/native disagreement, confirmed by the native judge)' % len(hist),
+                       'input': {'sequence_length': len(hist), 'last': {k: v for k, v in hist[-1].items() if k != 'kind'}}, 'demanded': True,
+                       'job': r['job'], 'replay': {'kind': '__history__', 'sequence': hist, 'nseeds': 2}}
+                ok, detail = run_replay(prop, cex, timeout_s=120)
+                replays_done += 1
+                if ok:
+                    cex['replay_detail'] = detail
+                    violations.append(cex)
+                    continue
             harness_errors.append('%s: %s' % (r['job'], r['differential_mismatch']))
 
     # write replays + report
